@@ -31,6 +31,8 @@ type terms struct {
 	variants []*variant
 	junk     [][]byte // encoded states outside the tree
 	garbage  int      // ids handed out for objects that cannot be placed (unknown parent)
+
+	variantStored bool // a same-id body variant was handed to AddBlocks (projection not possible)
 }
 
 const (
